@@ -1,0 +1,419 @@
+//go:build verif
+
+package encoding
+
+// Contracts for the order-preserving index key encoding (property C17), checked by /verif's govc.
+// This file holds comments only; it is compiled only under the build tag "verif".
+
+//@ unit encoding strict nopanic
+//@
+//@ extern NewErr* -> (e)
+//@   ensures e != nil
+//@   pure
+//@
+//@ // ===== spec: documented format of the variable-length unsigned integer ("uvarint") =============
+//@ // nb(v): number of payload bytes of the minimal big-endian form of v
+//@ spec nb(v uint64) int = ite(v <= 0xff, 1, ite(v <= 0xffff, 2, ite(v <= 0xffffff, 3, ite(v <= 0xffffffff, 4,
+//@      ite(v <= 0xffffffffff, 5, ite(v <= 0xffffffffffff, 6, ite(v <= 0xffffffffffffff, 7, 8)))))))
+//@ // k-th byte (k = 1..n) of the n-byte big-endian form of v
+//@ spec beAt(v uint64, n int, k int) byte = byte(v >> (uint64(8) * uint64(n - k)))
+//@ // ascending: small values 0..109 are one byte 136+v; others tag 245+nb, then nb payload bytes
+//@ spec uvLen(v uint64) int = ite(v <= 109, 1, 1 + nb(v))
+//@ spec uvB(v uint64, i int) byte = ite(i == 0, ite(v <= 109, byte(136 + v), byte(uint64(245) + uint64(nb(v)))), beAt(v, nb(v), i))
+//@ // descending: 0 is one byte 136; others tag 136-nb, then nb payload bytes of ^v
+//@ spec udLen(v uint64) int = ite(v == 0, 1, 1 + nb(v))
+//@ spec udB(v uint64, i int) byte = ite(i == 0, ite(v == 0, byte(136), byte(uint64(136) - uint64(nb(v)))), beAt(^v, nb(v), i))
+//@
+//@ // ===== spec: signed "varint": non-negative = uvarint; negative = tag 136-n, n low bytes =======
+//@ spec nbNeg(v int64) int = ite(v >= -0xff, 1, ite(v >= -0xffff, 2, ite(v >= -0xffffff, 3, ite(v >= -0xffffffff, 4,
+//@      ite(v >= -0xffffffffff, 5, ite(v >= -0xffffffffffff, 6, ite(v >= -0xffffffffffffff, 7, 8)))))))
+//@ spec vLen(v int64) int = ite(v >= 0, uvLen(uint64(v)), 1 + nbNeg(v))
+//@ spec vB(v int64, i int) byte = ite(v >= 0, uvB(uint64(v), i), ite(i == 0, byte(uint64(136) - uint64(nbNeg(v))), beAt(uint64(v), nbNeg(v), i)))
+//@
+//@ // big-endian value of the first n (<= 8) bytes of s
+//@ spec be(s []byte, n int) uint64 = ite(n <= 0, 0, ite(n == 1, uint64(s[0]),
+//@      ite(n == 2, uint64(s[0])<<8 | uint64(s[1]),
+//@      ite(n == 3, uint64(s[0])<<16 | uint64(s[1])<<8 | uint64(s[2]),
+//@      ite(n == 4, uint64(s[0])<<24 | uint64(s[1])<<16 | uint64(s[2])<<8 | uint64(s[3]),
+//@      ite(n == 5, uint64(s[0])<<32 | uint64(s[1])<<24 | uint64(s[2])<<16 | uint64(s[3])<<8 | uint64(s[4]),
+//@      ite(n == 6, uint64(s[0])<<40 | uint64(s[1])<<32 | uint64(s[2])<<24 | uint64(s[3])<<16 | uint64(s[4])<<8 | uint64(s[5]),
+//@      ite(n == 7, uint64(s[0])<<48 | uint64(s[1])<<40 | uint64(s[2])<<32 | uint64(s[3])<<24 | uint64(s[4])<<16 | uint64(s[5])<<8 | uint64(s[6]),
+//@                  uint64(s[0])<<56 | uint64(s[1])<<48 | uint64(s[2])<<40 | uint64(s[3])<<32 | uint64(s[4])<<24 | uint64(s[5])<<16 | uint64(s[6])<<8 | uint64(s[7])))))))))
+//@ // same with every byte complemented
+//@ spec beNot(s []byte, n int) uint64 = ite(n <= 0, 0, ite(n == 1, uint64(^s[0]),
+//@      ite(n == 2, uint64(^s[0])<<8 | uint64(^s[1]),
+//@      ite(n == 3, uint64(^s[0])<<16 | uint64(^s[1])<<8 | uint64(^s[2]),
+//@      ite(n == 4, uint64(^s[0])<<24 | uint64(^s[1])<<16 | uint64(^s[2])<<8 | uint64(^s[3]),
+//@      ite(n == 5, uint64(^s[0])<<32 | uint64(^s[1])<<24 | uint64(^s[2])<<16 | uint64(^s[3])<<8 | uint64(^s[4]),
+//@      ite(n == 6, uint64(^s[0])<<40 | uint64(^s[1])<<32 | uint64(^s[2])<<24 | uint64(^s[3])<<16 | uint64(^s[4])<<8 | uint64(^s[5]),
+//@      ite(n == 7, uint64(^s[0])<<48 | uint64(^s[1])<<40 | uint64(^s[2])<<32 | uint64(^s[3])<<24 | uint64(^s[4])<<16 | uint64(^s[5])<<8 | uint64(^s[6]),
+//@                  uint64(^s[0])<<56 | uint64(^s[1])<<48 | uint64(^s[2])<<40 | uint64(^s[3])<<32 | uint64(^s[4])<<24 | uint64(^s[5])<<16 | uint64(^s[6])<<8 | uint64(^s[7])))))))))
+//@
+//@ // "s starts with the encoding of w": the bytes an encoder wrote, followed by anything
+//@ spec startsUv(s []byte, w uint64) bool = len(s) >= uvLen(w) && all(i, 0, 9, i < uvLen(w) ==> s[i] == uvB(w, i))
+//@ spec startsUd(s []byte, w uint64) bool = len(s) >= udLen(w) && all(i, 0, 9, i < udLen(w) ==> s[i] == udB(w, i))
+//@ spec startsV(s []byte, w int64) bool = len(s) >= vLen(w) && all(i, 0, 9, i < vLen(w) ==> s[i] == vB(w, i))
+//@
+//@ // what a decoder reads: the tag byte gives the length, the payload is big-endian
+//@ spec okUv(s []byte) bool = len(s) >= 1 && s[0] >= 136 && (s[0] <= 245 || (s[0] <= 253 && len(s) >= 1 + (int(s[0]) - 245)))
+//@ spec dUvLen(s []byte) int = ite(s[0] <= 245, 1, 1 + (int(s[0]) - 245))
+//@ spec dUvVal(s []byte) uint64 = ite(s[0] <= 245, uint64(s[0]) - 136, be(s[1:], int(s[0]) - 245))
+//@ spec okUd(s []byte) bool = len(s) >= 1 && s[0] <= 136 && s[0] >= 128 && len(s) >= 1 + (136 - int(s[0]))
+//@ spec dUdLen(s []byte) int = 1 + (136 - int(s[0]))
+//@ spec dUdVal(s []byte) uint64 = beNot(s[1:], 136 - int(s[0]))
+//@ spec okV(s []byte) bool = len(s) >= 1 && ite(s[0] < 136, s[0] >= 128 && len(s) >= 1 + (136 - int(s[0])), okUv(s) && dUvVal(s) <= 0x7fffffffffffffff)
+//@ spec dVLen(s []byte) int = ite(s[0] < 136, 1 + (136 - int(s[0])), dUvLen(s))
+//@ spec dVVal(s []byte) int64 = ite(s[0] < 136, int64(^beNot(s[1:], 136 - int(s[0]))), int64(dUvVal(s)))
+//@
+//@ // ===== fixed width ==============================================================================
+//@ func EncodeUint32Ascending -> (r)
+//@   ensures len(r) == len(b) + 4 && fresh(r)
+//@   ensures extends(r, b)
+//@   ensures all(k, 1, 5, r[len(b)+k-1] == beAt(uint64(v), 4, k))
+//@   tags C17
+//@ func EncodeUint32Descending -> (r)
+//@   ensures len(r) == len(b) + 4 && fresh(r)
+//@   ensures extends(r, b)
+//@   ensures all(k, 1, 5, r[len(b)+k-1] == beAt(uint64(^v), 4, k))
+//@   tags C17
+//@ func EncodeUint64Ascending -> (r)
+//@   ensures len(r) == len(b) + 8 && fresh(r)
+//@   ensures extends(r, b)
+//@   ensures all(k, 1, 9, r[len(b)+k-1] == beAt(v, 8, k))
+//@   tags C17
+//@ func EncodeUint64Descending -> (r)
+//@   ensures len(r) == len(b) + 8 && fresh(r)
+//@   ensures extends(r, b)
+//@   ensures all(k, 1, 9, r[len(b)+k-1] == beAt(^v, 8, k))
+//@   tags C17
+//@ func DecodeUint32Ascending -> (rest, v, err)
+//@   ensures len(b) >= 4 ==> err == nil && uint64(v) == be(b, 4) && sameslice(rest, b[4:])
+//@   ensures len(b) < 4 ==> err != nil
+//@   tags C17
+//@ func DecodeUint32Descending -> (rest, v, err)
+//@   ensures len(b) >= 4 ==> err == nil && uint64(^v) == be(b, 4) && sameslice(rest, b[4:])
+//@   ensures len(b) < 4 ==> err != nil
+//@   tags C17
+//@ func DecodeUint64Ascending -> (rest, v, err)
+//@   ensures len(b) >= 8 ==> err == nil && v == be(b, 8) && sameslice(rest, b[8:])
+//@   ensures len(b) < 8 ==> err != nil
+//@   tags C17
+//@ func DecodeUint64Descending -> (rest, v, err)
+//@   ensures len(b) >= 8 ==> err == nil && ^v == be(b, 8) && sameslice(rest, b[8:])
+//@   ensures len(b) < 8 ==> err != nil
+//@   tags C17
+//@
+//@ // ===== uvarint ==================================================================================
+//@ func EncodeUvarintAscending -> (r)
+//@   ensures len(r) == len(b) + uvLen(v) && fresh(r)
+//@   ensures extends(r, b)
+//@   ensures all(i, 0, 9, i < uvLen(v) ==> r[len(b)+i] == uvB(v, i))
+//@   tags C17
+//@ func EncodeUvarintDescending -> (r)
+//@   ensures len(r) == len(b) + udLen(v) && fresh(r)
+//@   ensures extends(r, b)
+//@   ensures all(i, 0, 9, i < udLen(v) ==> r[len(b)+i] == udB(v, i))
+//@   tags C17
+//@ func DecodeUvarintAscending -> (rest, v, err)
+//@   loop 1 invariant 0 <= rangeindex + 1 && rangeindex + 1 <= length && length <= 8 && length <= len(b)
+//@   loop 1 invariant v == be(b, rangeindex + 1)
+//@   ensures okUv(b) ==> err == nil && v == dUvVal(b) && sameslice(rest, b[dUvLen(b):])
+//@   ensures len(b) == 0 ==> err != nil
+//@   tags C17
+//@ func DecodeUvarintDescending -> (rest, x, err)
+//@   loop 1 invariant 0 <= rangeindex + 1 && rangeindex + 1 <= length && length <= 8 && length <= len(b)
+//@   loop 1 invariant x == beNot(b, rangeindex + 1)
+//@   ensures okUd(b) ==> err == nil && x == dUdVal(b) && sameslice(rest, b[dUdLen(b):])
+//@   ensures len(b) == 0 ==> err != nil
+//@   tags C17
+//@
+//@ // ===== varint ===================================================================================
+//@ func EncodeVarintAscending -> (r)
+//@   ensures len(r) == len(b) + vLen(v) && fresh(r)
+//@   ensures extends(r, b)
+//@   ensures all(i, 0, 9, i < vLen(v) ==> r[len(b)+i] == vB(v, i))
+//@   tags C17
+//@ func EncodeVarintDescending -> (r)
+//@   ensures len(r) == len(b) + vLen(^v) && fresh(r)
+//@   ensures extends(r, b)
+//@   ensures all(i, 0, 9, i < vLen(^v) ==> r[len(b)+i] == vB(^v, i))
+//@   tags C17
+//@ func DecodeVarintAscending -> (rest, v, err)
+//@   loop 1 invariant 0 <= rangeindex + 1 && rangeindex + 1 <= length && length <= len(remB)
+//@   loop 1 invariant length <= 8 ==> uint64(v) == beNot(remB, rangeindex + 1)
+//@   ensures okV(b) ==> err == nil && v == dVVal(b) && sameslice(rest, b[dVLen(b):])
+//@   ensures len(b) == 0 ==> err != nil
+//@   tags C17
+//@ func DecodeVarintDescending -> (rest, v, err)
+//@   ensures okV(b) ==> err == nil && v == ^dVVal(b) && sameslice(rest, b[dVLen(b):])
+//@   ensures len(b) == 0 ==> err != nil
+//@   tags C17
+//@
+//@ // ===== lemmas: round trip = decoder contract composed with encoder contract ===================
+//@ lemma uvRoundTrip(s []byte, w uint64)
+//@   requires startsUv(s, w)
+//@   ensures okUv(s) && dUvVal(s) == w && dUvLen(s) == uvLen(w)
+//@   tags C17
+//@ lemma udRoundTrip(s []byte, w uint64)
+//@   requires startsUd(s, w)
+//@   ensures okUd(s) && dUdVal(s) == w && dUdLen(s) == udLen(w)
+//@   tags C17
+//@ lemma vRoundTrip(s []byte, w int64)
+//@   requires startsV(s, w)
+//@   ensures okV(s) && dVVal(s) == w && dVLen(s) == vLen(w)
+//@   tags C17
+//@
+//@ // ===== lemmas: order, prefix-freeness (the property-level facts) ================================
+//@ lemma uvAscMonotone(a uint64, c uint64)
+//@   requires a < c
+//@   ensures any(j, 0, 9, j < uvLen(a) && j < uvLen(c) && uvB(a, j) < uvB(c, j) && all(i, 0, 9, i < j ==> uvB(a, i) == uvB(c, i)))
+//@   tags C17
+//@ lemma uvDescMonotone(a uint64, c uint64)
+//@   requires a < c
+//@   ensures any(j, 0, 9, j < udLen(a) && j < udLen(c) && udB(c, j) < udB(a, j) && all(i, 0, 9, i < j ==> udB(a, i) == udB(c, i)))
+//@   tags C17
+//@ lemma vAscMonotone(a int64, c int64)
+//@   requires a < c
+//@   ensures any(j, 0, 9, j < vLen(a) && j < vLen(c) && vB(a, j) < vB(c, j) && all(i, 0, 9, i < j ==> vB(a, i) == vB(c, i)))
+//@   tags C17
+//@ lemma vDescMonotone(a int64, c int64)
+//@   requires a < c
+//@   ensures any(j, 0, 9, j < vLen(^a) && j < vLen(^c) && vB(^c, j) < vB(^a, j) && all(i, 0, 9, i < j ==> vB(^a, i) == vB(^c, i)))
+//@   tags C17
+//@ // the length of an encoding is determined by its first byte, hence no encoding is a proper prefix of another
+//@ lemma uvLenFromTag(a uint64, c uint64)
+//@   requires uvB(a, 0) == uvB(c, 0)
+//@   ensures uvLen(a) == uvLen(c)
+//@   tags C17
+//@ lemma udLenFromTag(a uint64, c uint64)
+//@   requires udB(a, 0) == udB(c, 0)
+//@   ensures udLen(a) == udLen(c)
+//@   tags C17
+//@ lemma vLenFromTag(a int64, c int64)
+//@   requires vB(a, 0) == vB(c, 0)
+//@   ensures vLen(a) == vLen(c)
+//@   tags C17
+//@ // injective: equal encodings come from equal values (with monotone this is implied, stated for decode)
+//@ lemma vInjective(a int64, c int64)
+//@   requires vLen(a) == vLen(c) && all(i, 0, 9, i < vLen(a) ==> vB(a, i) == vB(c, i))
+//@   ensures a == c
+//@   tags C17
+//@ // integer tags stay inside [IntMin, IntMax]: PeekType classifies them as Int and null (0x00/0xFF) sorts outside
+//@ lemma vTagRange(a int64)
+//@   ensures vB(a, 0) >= 128 && vB(a, 0) <= 253 && vB(^a, 0) >= 128 && vB(^a, 0) <= 253
+//@   tags C17
+//@
+//@ // ===== type peeking, null, bool ================================================================
+//@ // partition of the first byte exactly as the marker constants of encoding.go say
+//@ spec peek(m byte) int = ite(m == 0 || m == 0xff, 1, ite(m == 6, 6, ite(m == 7, 7, ite(m >= 128 && m <= 253, 3,
+//@      ite(m >= 12 && m <= 16, 10, ite(m >= 1 && m <= 5, 4, ite(m == 8, 8, ite(m == 9 || m == 10, 2, ite(m == 11, 9, 0)))))))))
+//@ func PeekType -> (t)
+//@   ensures len(b) == 0 ==> t == 0
+//@   ensures len(b) >= 1 ==> t == peek(b[0])
+//@   tags C17
+//@ func EncodeNullAscending -> (r)
+//@   ensures len(r) == len(b) + 1 && fresh(r) && r[len(b)] == 0x00
+//@   ensures extends(r, b)
+//@   tags C17
+//@ func EncodeNullDescending -> (r)
+//@   ensures len(r) == len(b) + 1 && fresh(r) && r[len(b)] == 0xff
+//@   ensures extends(r, b)
+//@   tags C17
+//@ func DecodeIfNull -> (rest, isNull)
+//@   ensures isNull == (len(b) >= 1 && (b[0] == 0x00 || b[0] == 0xff))
+//@   ensures isNull ==> sameslice(rest, b[1:])
+//@   ensures !isNull ==> sameslice(rest, b)
+//@   tags C17
+//@ func EncodeBoolAscending -> (r)
+//@   ensures len(r) == len(b) + 1 && fresh(r) && r[len(b)] == ite(v, byte(10), byte(9))
+//@   ensures extends(r, b)
+//@   tags C17
+//@ func EncodeBoolDescending -> (r)
+//@   ensures len(r) == len(b) + 1 && fresh(r) && r[len(b)] == ite(v, byte(9), byte(10))
+//@   ensures extends(r, b)
+//@   tags C17
+//@ func DecodeBoolAscending -> (rest, v, err)
+//@   ensures len(b) >= 1 && (b[0] == 9 || b[0] == 10) ==> err == nil && v == (b[0] == 10) && sameslice(rest, b[1:])
+//@   ensures len(b) == 0 ==> err != nil
+//@   tags C17
+//@ func DecodeBoolDescending -> (rest, v, err)
+//@   ensures len(b) >= 1 && (b[0] == 9 || b[0] == 10) ==> err == nil && v == (b[0] == 9) && sameslice(rest, b[1:])
+//@   ensures len(b) == 0 ==> err != nil
+//@   tags C17
+//@ // null sorts before every non-null value ascending (0x00 below every marker) and after it descending
+//@ lemma nullFirst(m byte)
+//@   requires peek(m) != 1 && peek(m) != 0
+//@   ensures 0x00 < m && m < 0xff
+//@   tags C17
+//@
+//@ // ===== floats ==================================================================================
+//@ spec f64Tag(f float64) byte = ite(isnan(f), 1, ite(iszero(f), 3, ite(isneg(f), 2, 4)))
+//@ spec f64Len(f float64) int = ite(isnan(f) || iszero(f), 1, 9)
+//@ // s starts with the ascending encoding of f: tag, then the IEEE bits (complemented when negative) big-endian
+//@ spec startsF64(s []byte, f float64) bool = len(s) >= f64Len(f) && s[0] == f64Tag(f) &&
+//@      (f64Tag(f) == 4 ==> float64frombits(be(s[1:], 8)) == f) && (f64Tag(f) == 2 ==> float64frombits(^be(s[1:], 8)) == f)
+//@ spec okF64(s []byte) bool = len(s) >= 1 && (s[0] == 1 || s[0] == 5 || s[0] == 3 || ((s[0] == 2 || s[0] == 4) && len(s) >= 9))
+//@ spec dF64Len(s []byte) int = ite(s[0] == 2 || s[0] == 4, 9, 1)
+//@ spec dF64Val(s []byte) float64 = ite(s[0] == 1 || s[0] == 5, float64frombits(0x7ff8000000000001), ite(s[0] == 3, float64frombits(0),
+//@      ite(s[0] == 4, float64frombits(be(s[1:], 8)), float64frombits(^be(s[1:], 8)))))
+//@ func EncodeFloat64Ascending -> (r)
+//@   ensures len(r) == len(b) + f64Len(f) && fresh(r)
+//@   ensures extends(r, b)
+//@   ensures startsF64(r[len(b):], f)
+//@   tags C17
+//@ func EncodeFloat64Descending -> (r)
+//@   ensures len(r) == len(b) + f64Len(f) && fresh(r)
+//@   ensures extends(r, b)
+//@   ensures isnan(f) ==> r[len(b)] == 5
+//@   ensures !isnan(f) ==> startsF64(r[len(b):], -f)
+//@   tags C17
+//@ func DecodeFloat64Ascending -> (rest, f, err)
+//@   ensures okF64(buf) ==> err == nil && sameslice(rest, buf[dF64Len(buf):])
+//@   ensures okF64(buf) ==> (isnan(dF64Val(buf)) && isnan(f)) || f == dF64Val(buf)
+//@   ensures len(buf) == 0 ==> err != nil
+//@   tags C17
+//@ func DecodeFloat64Descending -> (rest, f, err)
+//@   ensures okF64(buf) ==> err == nil && sameslice(rest, buf[dF64Len(buf):])
+//@   ensures okF64(buf) ==> (isnan(dF64Val(buf)) && isnan(f)) || f == -dF64Val(buf)
+//@   ensures len(buf) == 0 ==> err != nil
+//@   tags C17
+//@ lemma f64RoundTrip(s []byte, f float64)
+//@   requires startsF64(s, f)
+//@   ensures okF64(s) && dF64Len(s) == f64Len(f)
+//@   ensures isnan(f) ==> isnan(dF64Val(s))
+//@   ensures !isnan(f) ==> dF64Val(s) == f
+//@   tags C17
+//@ // order: compare the tag, then the (complemented) bit pattern as an unsigned number
+//@ lemma f64AscMonotone(pa uint64, pc uint64)
+//@   requires !isnan(float64frombits(pa)) && !isnan(float64frombits(pc)) && float64frombits(pa) < float64frombits(pc)
+//@   ensures f64Tag(float64frombits(pa)) < f64Tag(float64frombits(pc)) ||
+//@           (f64Tag(float64frombits(pa)) == f64Tag(float64frombits(pc)) &&
+//@            ((f64Tag(float64frombits(pa)) == 4 && pa < pc) || (f64Tag(float64frombits(pa)) == 2 && ^pa < ^pc)))
+//@   tags C17
+//@ lemma f64DescMonotone(a float64, c float64)
+//@   requires a < c
+//@   ensures -c < -a && !isnan(-a) && !isnan(-c)
+//@   tags C17
+//@ lemma f64NanFirst(a float64)
+//@   requires !isnan(a)
+//@   ensures 1 < f64Tag(a) && f64Tag(a) < 5 && f64Tag(-a) < 5
+//@   tags C17
+//@ // big-endian byte order is numeric order (used for every fixed-width payload)
+//@ lemma beOrder(a uint64, c uint64)
+//@   requires a < c
+//@   ensures any(j, 1, 9, beAt(a, 8, j) < beAt(c, 8, j) && all(i, 1, 9, i < j ==> beAt(a, 8, i) == beAt(c, 8, i)))
+//@   tags C17
+//@
+//@ spec f32Tag(f float32) byte = ite(isnan(f), 12, ite(iszero(f), 14, ite(isneg(f), 13, 15)))
+//@ spec f32Len(f float32) int = ite(isnan(f) || iszero(f), 1, 5)
+//@ spec startsF32(s []byte, f float32) bool = len(s) >= f32Len(f) && s[0] == f32Tag(f) &&
+//@      (f32Tag(f) == 15 ==> float32frombits(uint32(be(s[1:], 4))) == f) && (f32Tag(f) == 13 ==> float32frombits(^uint32(be(s[1:], 4))) == f)
+//@ spec okF32(s []byte) bool = len(s) >= 1 && (s[0] == 12 || s[0] == 16 || s[0] == 14 || ((s[0] == 13 || s[0] == 15) && len(s) >= 5))
+//@ spec dF32Len(s []byte) int = ite(s[0] == 13 || s[0] == 15, 5, 1)
+//@ spec dF32Val(s []byte) float32 = ite(s[0] == 12 || s[0] == 16, float32frombits(0x7fc00001), ite(s[0] == 14, float32frombits(0),
+//@      ite(s[0] == 15, float32frombits(uint32(be(s[1:], 4))), float32frombits(^uint32(be(s[1:], 4))))))
+//@ func Float32IsNaN -> (is)
+//@   ensures is == isnan(f)
+//@   tags C17
+//@ func Float32NaN -> (f)
+//@   ensures isnan(f)
+//@   tags C17
+//@ func EncodeFloat32Ascending -> (r)
+//@   ensures len(r) == len(b) + f32Len(f) && fresh(r)
+//@   ensures extends(r, b)
+//@   ensures startsF32(r[len(b):], f)
+//@   tags C17
+//@ func EncodeFloat32Descending -> (r)
+//@   ensures len(r) == len(b) + f32Len(f) && fresh(r)
+//@   ensures extends(r, b)
+//@   ensures isnan(f) ==> r[len(b)] == 16
+//@   ensures !isnan(f) ==> startsF32(r[len(b):], -f)
+//@   tags C17
+//@ func DecodeFloat32Ascending -> (rest, f, err)
+//@   ensures okF32(buf) ==> err == nil && sameslice(rest, buf[dF32Len(buf):])
+//@   ensures okF32(buf) ==> (isnan(dF32Val(buf)) && isnan(f)) || f == dF32Val(buf)
+//@   ensures len(buf) == 0 ==> err != nil
+//@   tags C17
+//@ func DecodeFloat32Descending -> (rest, f, err)
+//@   ensures okF32(buf) ==> err == nil && sameslice(rest, buf[dF32Len(buf):])
+//@   ensures okF32(buf) ==> (isnan(dF32Val(buf)) && isnan(f)) || f == -dF32Val(buf)
+//@   ensures len(buf) == 0 ==> err != nil
+//@   tags C17
+//@ lemma f32RoundTrip(s []byte, f float32)
+//@   requires startsF32(s, f)
+//@   ensures okF32(s) && dF32Len(s) == f32Len(f)
+//@   ensures isnan(f) ==> isnan(dF32Val(s))
+//@   ensures !isnan(f) ==> dF32Val(s) == f
+//@   tags C17
+//@ lemma f32AscMonotone(pa uint32, pc uint32)
+//@   requires !isnan(float32frombits(pa)) && !isnan(float32frombits(pc)) && float32frombits(pa) < float32frombits(pc)
+//@   ensures f32Tag(float32frombits(pa)) < f32Tag(float32frombits(pc)) ||
+//@           (f32Tag(float32frombits(pa)) == f32Tag(float32frombits(pc)) &&
+//@            ((f32Tag(float32frombits(pa)) == 15 && pa < pc) || (f32Tag(float32frombits(pa)) == 13 && ^pa < ^pc)))
+//@   tags C17
+//@ func decodeNull -> (r)
+//@   requires len(b) >= 1
+//@   ensures sameslice(r, b[1:])
+//@   tags C17
+//@
+//@ // ===== time: marker, varint seconds, varint nanoseconds ========================================
+//@ extern (time.Time).Unix(t) -> (s)
+//@   pure
+//@   opt alias=timeUnix sig=time.Time:int64
+//@ extern (time.Time).Nanosecond(t) -> (n)
+//@   pure
+//@   opt alias=timeNano sig=time.Time:int
+//@ extern time.Unix(sec, nsec) -> (t)
+//@   pure
+//@   opt alias=timeOf sig=int64,int64:time.Time
+//@ extern (time.Time).UTC(t) -> (u)
+//@   pure
+//@   opt alias=timeUTC sig=time.Time:time.Time
+//@ extern errors.Errorf -> (e)
+//@   ensures e != nil
+//@ spec startsTime(s []byte, sec int64, ns int64) bool = len(s) >= 1 + vLen(sec) + vLen(ns) && s[0] == 8 &&
+//@      startsV(s[1:], sec) && startsV(s[1+vLen(sec):], ns)
+//@ spec okTime(s []byte) bool = len(s) >= 1 && s[0] == 8 && okV(s[1:]) && okV(s[1+dVLen(s[1:]):])
+//@ func encodeTime -> (r)
+//@   ensures len(r) == len(b) + 1 + vLen(unix) + vLen(nanos) && fresh(r)
+//@   ensures extends(r, b)
+//@   ensures startsTime(r[len(b):], unix, nanos)
+//@   tags C17
+//@ func EncodeTimeAscending -> (r)
+//@   ensures len(r) == len(b) + 1 + vLen(timeUnix(t)) + vLen(int64(timeNano(t))) && fresh(r)
+//@   ensures extends(r, b)
+//@   ensures startsTime(r[len(b):], timeUnix(t), int64(timeNano(t)))
+//@   tags C17
+//@ func EncodeTimeDescending -> (r)
+//@   ensures len(r) == len(b) + 1 + vLen(^timeUnix(t)) + vLen(^int64(timeNano(t))) && fresh(r)
+//@   ensures extends(r, b)
+//@   ensures startsTime(r[len(b):], ^timeUnix(t), ^int64(timeNano(t)))
+//@   tags C17
+//@ func decodeTime -> (r, sec, nsec, err)
+//@   ensures okTime(b) ==> err == nil && sec == dVVal(b[1:]) && nsec == dVVal(b[1+dVLen(b[1:]):])
+//@   ensures okTime(b) ==> sameslice(r, b[1+dVLen(b[1:])+dVLen(b[1+dVLen(b[1:]):]):])
+//@   ensures len(b) == 0 ==> err != nil
+//@   tags C17
+//@ func DecodeTimeAscending -> (r, t, err)
+//@   ensures okTime(b) ==> err == nil && t == timeUTC(timeOf(dVVal(b[1:]), dVVal(b[1+dVLen(b[1:]):])))
+//@   ensures okTime(b) ==> sameslice(r, b[1+dVLen(b[1:])+dVLen(b[1+dVLen(b[1:]):]):])
+//@   tags C17
+//@ func DecodeTimeDescending -> (r, t, err)
+//@   ensures okTime(b) ==> err == nil && t == timeUTC(timeOf(^dVVal(b[1:]), ^dVVal(b[1+dVLen(b[1:]):])))
+//@   ensures okTime(b) ==> sameslice(r, b[1+dVLen(b[1:])+dVLen(b[1+dVLen(b[1:]):]):])
+//@   tags C17
+//@ lemma timeRoundTrip(s []byte, sec int64, ns int64)
+//@   requires startsTime(s, sec, ns)
+//@   ensures okTime(s) && dVVal(s[1:]) == sec && dVVal(s[1+dVLen(s[1:]):]) == ns
+//@   tags C17
+//@ // (sec, ns) pairs sort lexicographically: byte i of the two-component key
+//@ spec tB(sec int64, ns int64, i int) byte = ite(i < vLen(sec), vB(sec, i), vB(ns, i - vLen(sec)))
+//@ lemma timeAscMonotone(s1 int64, n1 int64, s2 int64, n2 int64)
+//@   requires s1 < s2 || (s1 == s2 && n1 < n2)
+//@   ensures any(j, 0, 18, j < vLen(s1) + vLen(n1) && j < vLen(s2) + vLen(n2) && tB(s1, n1, j) < tB(s2, n2, j) &&
+//@           all(i, 0, 18, i < j ==> tB(s1, n1, i) == tB(s2, n2, i)))
+//@   tags C17
+//@ lemma complementReverses(a int64, c int64)
+//@   requires a < c
+//@   ensures ^c < ^a
+//@   tags C17
